@@ -36,6 +36,9 @@ ASSUMPTIONS = [
     "negative cases: a ValueError or a complete output that is still sorted are both accepted, only a complete "
     "unsorted output is a violation; utils.merge_sort makes no sortedness promise and gets no negative cases",
     "Parquet inputs are written with row groups of 2 rows, text inputs tab-separated with suffix .tab",
+    "text files whose score column types, as inferred from their first two rows, differ (all-integral vs fractional) "
+    "are refused by the merger with the explicit error 'Column types do not match'; such families are counted as "
+    "schema_refused, not judged",
 ]
 
 PA = [pa.int64(), pa.float64(), pa.string()]
@@ -49,11 +52,16 @@ def input_path(fmt, j, seq):
     if key not in _POOL:
         if _DIR[0] is None:
             _DIR[0] = worker_scratch().sub("pool")
-        p = _DIR[0] / f"in{j}_{''.join(map(str, seq))}{'_fine' if M.FINE else ''}.{fmt}"
+        p = _DIR[0] / f"in{j}_{''.join(map(str, seq))}{('_' + str(M.FINE)) if M.FINE else ''}.{fmt}"
         rows = M.rows_of([()] * j + [seq])[j]
         if fmt == "parquet":
             tbl = pa.table({c: pa.array([r[k] for r in rows], PA[k]) for k, c in enumerate(M.COLS)})
             pq.write_table(tbl, p, row_group_size=2)
+        elif M.FINE == "half":
+            with open(p, "w") as fh:  # %g: integral scores carry no decimal point
+                fh.write("\t".join(M.COLS) + "\n")
+                for r in rows:
+                    fh.write(f"{r[0]}\t{r[1]:g}\t{r[2]}\n")
         else:
             write_text(p, M.COLS, rows)
         _POOL[key] = p
@@ -68,7 +76,7 @@ def rows_from(x):
 
 def observe(case):
     """Run one access path; -> (rows delivered so far, exception or None)."""
-    M.FINE = bool(case.get("fine"))
+    M.FINE = case.get("fine") or False
     import mokapot.utils as mu
     from mokapot.streaming import MergedTabularDataReader, merge_readers
     from mokapot.tabular_data import TableType, TabularDataReader
@@ -111,10 +119,16 @@ def signature(impl):
 
 def check_case(case, acc):
     """-> (outcome class, rows)."""
-    M.FINE = bool(case.get("fine"))
+    M.FINE = case.get("fine") or False
     inputs, desc = [tuple(s) for s in case["inputs"]], case["desc"]
     out, exc = observe(case)
     sig = signature(case["impl"])
+    if case.get("fine") == "half" and isinstance(exc, AssertionError) and "Column types do not match" in str(exc):
+        # the column type of a text file is inferred from its first two rows; inputs whose inferred score types differ
+        # (one all-integral head, one fractional) are refused up front with this explicit error
+        heads = {all(float(M.score_value(x)).is_integer() for x in seq[:2]) for seq in inputs}
+        if len(heads) > 1:
+            return "schema_refused", out
     if not case["negative"]:
         if exc is not None:
             acc.violation(Violation(sig + f"raises:{type(exc).__name__}",
@@ -159,13 +173,16 @@ def explore(inputs, desc, negative, acc):
             case = {"impl": impl, "fmt": fmt, "desc": desc, "inputs": [list(s) for s in inputs], "chunk": c,
                     "out_chunk": oc, "negative": negative}
             cls, out = check_case(case, acc)
-            if impl != "merge_sort" and n_rows_of(inputs) <= 3 and (c <= 2):
+            if impl != "merge_sort" and n_rows_of(inputs) <= 4 and (c <= 2):
                 # the same family with score levels only 3e-5 apart (an inversion is then tiny but real)
-                case_f = dict(case, fine=True)
-                cls_f, out_f = check_case(case_f, acc)
-                acc.case(key=(impl, fmt, desc, inputs, c, oc, negative, "fine"), nontrivial=True, cls=cls_f,
-                         outcome=stable_hash([cls_f, [r[0] for r in out_f]]))
-                acc.count("fine_score_levels")
+                # ... and with levels 8 / 8.5 / 9 written as "8", "8.5", "9" (integer-only chunks next to fractional ones)
+                modes = ((True,) if n_rows_of(inputs) <= 3 else ()) + (("half",) if fmt == "tab" else ())
+                for fine in modes:
+                    case_f = dict(case, fine=fine)
+                    cls_f, out_f = check_case(case_f, acc)
+                    acc.case(key=(impl, fmt, desc, inputs, c, oc, negative, fine), nontrivial=True, cls=cls_f,
+                             outcome=stable_hash([cls_f, [r[0] for r in out_f]]))
+                    acc.count("fine_score_levels" if fine is True else "integral_and_fractional_levels")
                 M.FINE = False
             if impl == "merge_sort" and c == 2 and n_rows_of(inputs) <= 4:
                 # history: the same merge right after another merge was abandoned after 1 / 2 rows
